@@ -836,6 +836,8 @@ builtinfunc(struct scope *s, enum builtinkind kind)
 		break;
 	case BUILTINOFFSETOF:
 		t = typename(s, NULL, NULL);
+		if (!t)
+			error(&tok.loc, "expected type name");
 		expect(TCOMMA, "after type name");
 		name = expect(TIDENT, "after ','");
 		if (t->kind != TYPESTRUCT && t->kind != TYPEUNION)
@@ -850,8 +852,15 @@ builtinfunc(struct scope *s, enum builtinkind kind)
 		break;
 	case BUILTINTYPESCOMPATIBLEP:
 		t = typename(s, NULL, NULL);
+		if (!t)
+			error(&tok.loc, "expected type name");
 		expect(TCOMMA, "after type name");
-		e = mkconstexpr(&typeint, typecompatible(t, typename(s, NULL, NULL)));
+		e = mkexpr(EXPRCONST, &typeint, NULL);
+		e->type = typename(s, NULL, NULL);
+		if (!e->type)
+			error(&tok.loc, "expected type name");
+		e->u.constant.u = typecompatible(t, e->type);
+		e->type = &typeint;
 		break;
 	case BUILTINUNREACHABLE:
 		e = mkexpr(EXPRBUILTIN, &typevoid, NULL);
@@ -866,6 +875,8 @@ builtinfunc(struct scope *s, enum builtinkind kind)
 			e->base = mkunaryexpr(TBAND, e->base);
 		expect(TCOMMA, "after va_list");
 		e->type = typename(s, &e->qual, &toeval);
+		if (!e->type)
+			error(&tok.loc, "expected type name after ',' in va_arg");
 		e->toeval = toeval;
 		break;
 	case BUILTINVACOPY:
